@@ -56,9 +56,8 @@ def _als(case, lean):
         bm = m.bias_; resid = R - bm.global_bias - bm.item_biases[None, :] - bm.user_biases[:, None]
     for i in range(I.shape[0]):
         us = np.where(Mk[:, i])[0]
+        if len(us) == 0: continue            # rows without data are not updated (they keep their previous values, checked below)
         if explicit:
-            if len(us) == 0:
-                continue
             out = mat().call("c10.explicit", dict(M=[[rat(v) for v in U[u]] for u in us], r=[rat(resid[u, i]) for u in us], c=rat(case["reg_item"] * len(us)), x=[rat(v) for v in I[i]]))
             scale = max(1.0, float(np.abs(U[us]).max()) ** 2 * len(us))
         else:
@@ -74,8 +73,8 @@ def _als(case, lean):
         Uh, Iprev = ust[-1]["left"], ust[-1]["other"]
         for u in range(Uh.shape[0]):
             its = np.where(Mk[u, :])[0]
+            if len(its) == 0: continue
             if explicit:
-                if len(its) == 0: continue
                 out = mat().call("c10.explicit", dict(M=[[rat(v) for v in Iprev[i]] for i in its], r=[rat(resid[u, i]) for i in its], c=rat(case["reg_user"] * len(its)), x=[rat(v) for v in Uh[u]]))
                 scale = max(1.0, float(np.abs(Iprev[its]).max()) ** 2 * len(its))
             else:
